@@ -219,7 +219,12 @@ func checkAPI(c *hl.Ctx, t *ref.Tree) {
 		return
 	}
 	feat, f := amf0lib.Attribute([]*ref.Tree{t}, f, func(s []*ref.Tree) *failure { return evalAPI(s[0]) })
-	c.Violation("api/"+f.Clause+"/"+feat, f.What, apiCase{Part: "api", Tree: t.Clone()})
+	key := "api/" + f.Clause + "/" + feat
+	if c.HasViolation(key) {
+		c.Violation(key, "", nil) // counted; the first (smallest) case is the one kept
+		return
+	}
+	c.Violation(key, f.What, apiCase{Part: "api", Tree: t.Clone()})
 }
 
 type bytesCase struct {
@@ -251,11 +256,21 @@ func checkBytes(c *hl.Ctx, w *wireCase, b []byte, first int) {
 	feat, f := amf0lib.Attribute([]*ref.Tree{w.Tree}, f, func(s []*ref.Tree) *failure {
 		w2 := &wireCase{Tree: s[0], Suffix: w.Suffix, Byte: w.Byte, Next: w.Next}
 		b2, first2 := w2.bytes()
-		f2, _ := evalBytes(w2, b2, first2)
+		f2, decoded := evalBytes(w2, b2, first2)
+		if f2 == nil && !decoded {
+			// a variant the library rejects tells nothing about the feature: not a pass
+			_, err, _ := amf0lib.Decode(b2)
+			return fail("rejected", "%s (%v) is rejected by the library: %v", hl.Hex(b2), s[0], err)
+		}
 		return f2
 	})
+	key := "bytes/" + f.Clause + "/" + feat
+	if c.HasViolation(key) {
+		c.Violation(key, "", nil)
+		return
+	}
 	cs := bytesCase{Part: "bytes", wireCase: wireCase{Tree: w.Tree.Clone(), Suffix: w.Suffix, Byte: w.Byte, Next: w.Next}}
-	c.Violation("bytes/"+f.Clause+"/"+feat, f.What, cs)
+	c.Violation(key, f.What, cs)
 }
 
 // checkBooleanBytes: 01 xx for every xx decodes with Size()==2, in front of another value.
